@@ -26,7 +26,7 @@ Accept(c) ==
 TInit == l = 1 /\ TLCSet(1, {}) /\ store = {} /\ cur = Idle /\ pos = 0 /\ seen = <<>> /\ hist = <<>>
 TNext == /\ l <= Len(Lines)
          /\ IF Accept(Lines[l]) THEN TRUE
-            ELSE TLCSet(1, TLCGet(1) \cup {l}) /\ PrintT(<<"REJECT", l, Lines[l].kind>>)
+            ELSE TLCSet(1, TLCGet(1) \cup {l}) /\ PrintT(ToJson([rej |-> l, info |-> <<Lines[l].kind>>]))
          /\ l' = l + 1 /\ UNCHANGED vars
-Done == TLCGet(1) = {} /\ TLCGet("stats").diameter - 1 = Len(Lines)
+Done == PrintT(ToJson([rejected_total |-> Cardinality(TLCGet(1))])) /\ TLCGet(1) = {} /\ TLCGet("stats").diameter - 1 = Len(Lines)
 =============================================================================
